@@ -27,6 +27,21 @@ fn clock() -> &'static MockClock {
     CLOCK.with(|c| *c)
 }
 
+/// A legal monotonic clock that advances by one millisecond per reading (kind 9): a timer service
+/// that reads the clock several times during one call sees different values.
+pub struct TickClock(std::sync::atomic::AtomicU64);
+impl futures_intrusive::timer::Clock for TickClock {
+    fn now(&self) -> u64 {
+        self.0.fetch_add(1, std::sync::atomic::Ordering::Relaxed)
+    }
+}
+thread_local! {
+    static TICK: &'static TickClock = Box::leak(Box::new(TickClock(std::sync::atomic::AtomicU64::new(0))));
+}
+fn tick() -> &'static TickClock {
+    TICK.with(|c| *c)
+}
+
 enum Prim {
     Event(Box<GenericManualResetEvent<PL>>),
     Sem(Box<GenericSemaphore<PL>>),
@@ -155,7 +170,7 @@ impl Sys {
             }
             Prim::Timer(t) => {
                 let t: &'static GenericTimerService<PL> = stat!(t, GenericTimerService<PL>);
-                let f = Timer::deadline(t, if self.chain { 1 + self.futs.len() as u64 } else { 1 });
+                let f = Timer::deadline(t, if self.kind == 9 { 1_000_000 } else if self.chain { 1 + self.futs.len() as u64 } else { 1 });
                 Box::pin(async move {
                     f.await;
                     R_UNIT
@@ -206,6 +221,10 @@ impl System for Sys {
             5 => (Prim::Bcast(Box::new(GenericOneshotBroadcastChannel::new())), "C12"),
             6 => (Prim::State(Box::new(GenericStateBroadcastChannel::new())), "C13"),
             7 => (Prim::Timer(Box::new(GenericTimerService::new(clock()))), "C15"),
+            9 => {
+                tick().0.store(0, std::sync::atomic::Ordering::Relaxed);
+                (Prim::Timer(Box::new(GenericTimerService::new(tick()))), "C15")
+            }
             8 => {
                 let m = Box::new(futures_intrusive::sync::GenericMutex::<PL, u32>::new(0, cfg.flag("fair")));
                 let mr: &'static futures_intrusive::sync::GenericMutex<PL, u32> = stat!(&m, futures_intrusive::sync::GenericMutex<PL, u32>);
@@ -301,6 +320,9 @@ impl System for Sys {
                     }),
                     Prim::Timer(t) => {
                         clock().set_time(1);
+                        if self.kind == 9 {
+                            tick().0.store(2_000_000, std::sync::atomic::Ordering::Relaxed);
+                        }
                         lib(|| t.check_expirations())
                     }
                     Prim::Mutex(_, _) => Ok(()),
